@@ -958,13 +958,21 @@ func init() {
 				}
 				r.Check(guarded, "alias-guard", st.Pos(), "insertion is dominated by the non-nil edge of the concrete lookup")
 				if gif != nil {
+					// the nil edge: the body of `if concrete == nil {…; continue}`, or the else of `if concrete != nil {insert} else {…}`
+					nilEdge, leaves := gif.Body, terminates(gif.Body)
+					if fi.within(st, gif.Body) {
+						nilEdge, _ = gif.Else.(*ast.BlockStmt)
+						leaves = nilEdge != nil // the insertion is in the other arm: nothing is inserted on this edge
+					}
 					added := false
-					for _, cl := range callsIn(gif.Body) {
-						if fi.calleeName(cl) == fnECAdd && fi.unconditionalIn(cl, gif.Body) {
-							added = true
+					if nilEdge != nil {
+						for _, cl := range callsIn(nilEdge) {
+							if fi.calleeName(cl) == fnECAdd && fi.unconditionalIn(cl, nilEdge) {
+								added = true
+							}
 						}
 					}
-					r.Check(added && terminates(gif.Body), "missing-concrete-error", gif.Pos(), "the nil edge adds an error and leaves without inserting")
+					r.Check(added && leaves, "missing-concrete-error", gif.Pos(), "the nil edge adds an error and leaves without inserting")
 				}
 			}
 			r.Floor("interface-key insertions", n, 1)
